@@ -10,6 +10,7 @@ import Dtn7.Lemmas.NodeC13
 import Dtn7.Lemmas.NodeBook
 import Dtn7.Lemmas.NodeDup
 import Dtn7.Lemmas.NodeBookAny
+import Dtn7.Lemmas.NodeDupAny
 import Dtn7.Gen.C13
 
 namespace Dtn7.Props.C13
@@ -161,17 +162,52 @@ theorem never_to_prev_node_any_variant (c : Cfg) (env : Env) (now : Nat)
     firstFail (fun c _ o => returnFail c o) c (SpecSt.init now) 0 ((trace env (init c now) h).map obsOf) = none :=
   prev_run c env h [] _ _ 0 (by simpa using hdom) (rinv_init c now) (prevInv_init c now)
 
-/-- **`never_twice`**: for every routing algorithm (and the sensor-mule wrapper), every environment, every
-number of peers and every history of `Domain13t` (`Domain13` plus "the tag names the concrete bundle"): no
-algorithm-chosen transmission of a bundle goes to a peer that already got this bundle successfully by
-the algorithm's choice while the node holds the bundle (`okSent` forgets a bundle when it leaves the store
-and when an application submits it anew). The invariant: every remembered success is in the bundle's
-sent list (`DInv`), together with the provenance of the stored bundles and "every stored item has a
-retention constraint". -/
-theorem never_twice (c : Cfg) (hfix : c.holdFix = true) (env : Env) (now : Nat)
+/-- **`never_twice`** (FULL STRENGTH over histories): for the code as it is, for every routing algorithm (and the
+sensor-mule wrapper), every environment, every number of peers and EVERY history whose tags tell bundles apart
+(`Tags`: two bundles of the history with one tag have one source and creation time — the tag is how the Spec
+and the send log name a bundle; any IDs, same-millisecond and resubmitted bundles, restarts anywhere): no
+algorithm-chosen transmission of a bundle goes to a peer that already got this bundle (this tag and sequence
+number) successfully by the algorithm's choice while the node holds the bundle (`okSent` forgets a bundle
+when it leaves the store). The invariant: every remembered success is in the bundle's sent list, the
+provenance of the stored bundles up to the sequence number the node assigned (`ProvO`), every stored item
+has a retention constraint, every remembered success names a stored item. -/
+theorem never_twice (c : Cfg) (hc : Cur c) (env : Env) (now : Nat)
+    (h : List Event) (htags : Tags h) :
+    firstFail dupFail c (SpecSt.init now) 0 ((trace env (init c now) h).map obsOf) = none :=
+  dupO_run c hc env h [] _ _ 0 (by simpa using htags) (rinvF_init c now) (dinvO_init c now)
+
+/-- The same for every variant of the code with `dispatching` repaired, on the histories of `Domain13t`. -/
+theorem never_twice_any_variant (c : Cfg) (hfix : c.holdFix = true) (env : Env) (now : Nat)
     (h : List Event) (hdom : Domain13t c h) :
     firstFail dupFail c (SpecSt.init now) 0 ((trace env (init c now) h).map obsOf) = none :=
   dup_run c hfix env h [] _ _ 0 (by simpa using hdom) (rinv_init c now) (dinv_init c now)
+
+/-- The hypotheses are satisfiable by a history the old domain excluded: two submissions of one bundle (one
+source, one creation time, one tag), a reception, a restart. -/
+example :
+    let b : Bundle := { tag := 1, src := ⟨1, 0⟩, ts := 900, seq := 0, dst := ⟨5, 0⟩, prev := none, lifetime := 3600,
+                        hop := none, age := none, delBlock := false, bsCopies := none }
+    let r : Bundle := { b with tag := 2, src := ⟨7, 0⟩, prev := some ⟨2, 0⟩, bsCopies := some 2 }
+    Tags [.submit b, .submit b, .receive r none, .restart, .submit b] ∧
+    (∀ c : Cfg, c.self = 1 → Bundles13 c [.submit b, .submit b, .receive r none, .restart, .submit b]) := by
+  intro b r
+  constructor
+  · intro x y hx hy ht
+    simp only [evBundle, submitted, received, List.mem_cons, List.not_mem_nil, or_false, List.filterMap_cons,
+      List.filterMap_nil] at hx hy
+    rcases hx with (hx | hx | hx) | hx <;> rcases hy with (hy | hy | hy) | hy <;> subst hx <;> subst hy <;>
+      first | exact ⟨rfl, rfl⟩ | (simp [b, r] at ht)
+  · intro c hself
+    refine ⟨?_, ?_⟩
+    · intro x hx
+      simp only [submitted, List.filterMap_cons, List.filterMap_nil, List.mem_cons, List.not_mem_nil, or_false] at hx
+      rcases hx with hx | hx | hx <;> subst hx <;> rfl
+    · intro x hx
+      simp only [received, List.filterMap_cons, List.filterMap_nil, List.mem_cons, List.not_mem_nil, or_false] at hx
+      subst hx
+      left
+      unfold seedsPrev
+      cases c.algo <;> simp [r, b, hasEndpoint, hself]
 
 /-- **`never_twice`, the inductive step** (every algorithm, any peers): let `E` be any set of endpoint IDs
 that are booked for the bundle (in its sent list) and are not its destination's node — e.g. the peers that
